@@ -1578,6 +1578,8 @@ class Interp:
                     self.raise_('ValueError', 'not in list')
             if name == 'sort' and all(is_concrete(x) for x in obj) and not kwargs:
                 obj.sort(); return None
+            if name == 'sort' and len(obj) <= 1 and set(kwargs) <= {'key', 'reverse'}:
+                return None         # nothing to order (the key function is not called on an empty list; on one element its result is not used)
             if name == 'reverse':
                 obj.reverse(); return None
             if name == 'remove':
